@@ -79,14 +79,30 @@ class FuncObj:
         return "<function %s>" % self.attrs.get("__name__", self.node.name)
 
 
-def call_function(func_node, args, extra=None):
+def call_function(func_node, args, extra=None, kwargs=None):
     """run a plain function (no self) on concrete arguments; extra: __calls__/__values__/__isinstance__ hooks"""
     prm = A.params(func_node)
-    if len(args) != len(prm):
-        raise AnalysisError("miniinterp: arity")
+    kwargs = dict(kwargs or {})
+    if len(args) > len(prm):
+        raise Raised("TypeError")
     env = dict(zip(prm, args))
     env["__self__"] = {}
     env.update(extra or {})
+    dflt = func_node.args.defaults
+    for i, n in enumerate(prm):
+        if n in env and i < len(args):
+            if n in kwargs:
+                raise Raised("TypeError")
+            continue
+        if n in kwargs:
+            env[n] = kwargs.pop(n)
+            continue
+        j = i - (len(prm) - len(dflt))
+        if j < 0:
+            raise Raised("TypeError")
+        env[n] = _ev(dflt[j], env)
+    if kwargs:
+        raise Raised("TypeError")
     try:
         _block(func_node.body, env)
     except _Ret as r:
@@ -129,7 +145,21 @@ def _stmt(st, env):
         env[st.name] = FuncObj(st, env)
         return
     if isinstance(st, ast.With):
-        _block(st.body, env)
+        entered = []
+        try:
+            for it in st.items:
+                cm = _ev(it.context_expr, env)
+                if hasattr(cm, "mi_enter"):
+                    v = cm.mi_enter()
+                    entered.append(cm)
+                    if it.optional_vars is not None:
+                        _store(it.optional_vars, v, env)
+                elif it.optional_vars is not None:
+                    _store(it.optional_vars, cm, env)
+            _block(st.body, env)
+        finally:
+            for cm in reversed(entered):
+                cm.mi_exit()
         return
     if isinstance(st, ast.Assign) and len(st.targets) == 1:
         _store(st.targets[0], _ev(st.value, env), env)
@@ -301,6 +331,11 @@ def _ev(e, env):
             if e.attr not in base.attrs:
                 raise Raised("AttributeError")
             return base.attrs[e.attr]
+        if getattr(base, "mi_native", False) and not e.attr.startswith("mi_"):
+            try:
+                return getattr(base, e.attr)
+            except AttributeError:
+                raise Raised("AttributeError")
         raise AnalysisError("miniinterp: unsupported attribute %s" % A.src(e))
     if isinstance(e, ast.Subscript):
         base = _ev(e.value, env)
@@ -343,6 +378,12 @@ def _ev(e, env):
                 raise Raised("TypeError")
         if isinstance(e.op, ast.Mult):
             return a * b
+        if isinstance(e.op, (ast.FloorDiv, ast.Mod, ast.Div)) and isinstance(a, (int, float)) and isinstance(b, (int, float)) \
+                and not isinstance(a, bool) and not isinstance(b, bool):
+            try:
+                return a // b if isinstance(e.op, ast.FloorDiv) else a % b if isinstance(e.op, ast.Mod) else a / b
+            except ZeroDivisionError:
+                raise Raised("ZeroDivisionError")
         raise AnalysisError("miniinterp: unsupported operator")
     if isinstance(e, ast.Compare):
         left = _ev(e.left, env)
@@ -379,7 +420,7 @@ def _ev(e, env):
         d = A.call_name(e)
         hooks = env.get("__calls__", {})
         if d in hooks:
-            return hooks[d](*_args(e, env))
+            return hooks[d](*_args(e, env), **{k.arg: _ev(k.value, env) for k in e.keywords if k.arg})
         if isinstance(e.func, ast.Attribute) and isinstance(e.func.value, ast.Name) and env.get(e.func.value.id) == "__SELF__" \
                 and e.func.attr in env.get("__methods__", {}):
             extra = {k: env[k] for k in ("__calls__", "__values__", "__isinstance__", "__methods__", "__globals__",
@@ -415,9 +456,17 @@ def _ev(e, env):
             if isinstance(v, ModelObj):
                 return nm in v.attrs
             raise AnalysisError("miniinterp: hasattr() of a non-model value")
-        if d in ("len", "max", "min", "list", "tuple", "str", "set", "dict", "frozenset", "bool", "int"):
-            return {"len": len, "max": max, "min": min, "list": list, "tuple": tuple, "str": str, "set": set, "dict": dict,
-                    "frozenset": frozenset, "bool": bool, "int": int}[d](*[_ev(a, env) for a in e.args])
+        if d in ("len", "max", "min", "list", "tuple", "str", "set", "dict", "frozenset", "bool", "int", "range", "enumerate",
+                 "zip", "abs", "divmod", "any", "all", "sum", "bytes", "iter", "next"):
+            try:
+                return {"len": len, "max": max, "min": min, "list": list, "tuple": tuple, "str": str, "set": set, "dict": dict,
+                        "frozenset": frozenset, "bool": bool, "int": int, "range": range, "enumerate": enumerate, "zip": zip,
+                        "abs": abs, "divmod": divmod, "any": any, "all": all, "sum": sum, "bytes": bytes, "iter": iter,
+                        "next": next}[d](*[_ev(a, env) for a in e.args])
+            except (TypeError, ValueError) as ex:
+                raise Raised(type(ex).__name__)
+            except StopIteration:
+                raise Raised("StopIteration")
         # a value of the model that is callable (registry entries, hooks handed in as globals)
         if not isinstance(e.func, ast.Attribute) or not (isinstance(e.func.value, ast.Name) and env.get(e.func.value.id) == "__SELF__"):
             try:
@@ -426,7 +475,7 @@ def _ev(e, env):
                 fv = _NOFUNC
             if fv is not _NOFUNC:
                 if callable(fv):
-                    return fv(*_args(e, env))
+                    return fv(*_args(e, env), **{k.arg: _ev(k.value, env) for k in e.keywords if k.arg})
                 raise Raised("TypeError")        # calling None / a non-callable
         raise AnalysisError("miniinterp: unsupported call %s" % A.src(e))
     raise AnalysisError("miniinterp: unsupported expression %s" % A.src(e))
